@@ -597,8 +597,73 @@ def unit_batchdims():
 
 
 
+def unit_exactsolve_retry():
+    """_solve_ABE (dense solve with shifts E): when the first factorisation fails, the SAME shifted matrices are solved
+    again with a small multiple of the identity added (ARR domain: 2x2 matrices, two columns, symbolic entries)"""
+    import importlib
+    import types
+    from pydv import arr
+    sv = importlib.import_module("xitorch._impls.linalg.solve")
+    bc = importlib.import_module("xitorch._utils.bcast")
+
+    class LinAlgError(RuntimeError):
+        pass
+
+    def run():
+        c = ctx()
+        T = arr.make_torch()
+        T._C = types.SimpleNamespace(_LinAlgError=LinAlgError)
+
+        class _Finfo(object):
+            eps = 2.0 ** -52
+        T.finfo = lambda dt: _Finfo()
+        calls = []
+
+        def solve_stub(M, Bm):
+            calls.append((M, Bm))
+            if len(calls) == 1 and fail_first:
+                raise LinAlgError("singular")
+            return arr.sym("sol%d" % len(calls), Bm.shape)
+        T.linalg = types.SimpleNamespace(solve=solve_stub)
+        fail_first = c.choose(2, "first_factorisation_fails") == 0
+        A, B, E = arr.sym("A", (2, 2)), arr.sym("B", (2, 2)), arr.sym("E", (2,))
+        tag = "exactsolve_with_E[2x2,2 columns,%s]" % ("retry" if fail_first else "direct")
+        with kit.patched(sv, "torch", T), kit.patched(bc, "torch", T):
+            ok, r = kit.call_or_fail(c, tag + ":does_not_raise", lambda: sv._solve_ABE(A, B, E))
+        if not ok:
+            return
+        c.check(tag + ":result_has_the_shape_of_B", r.shape == (2, 2))
+        c.check(tag + ":number_of_factorisations", len(calls) == (2 if fail_first else 1))
+        M1, B1 = calls[0]
+        c.check(tag + ":one_system_per_column", M1.shape == (2, 2, 2) and B1.shape == (2, 2, 1))
+        if M1.shape != (2, 2, 2):
+            return
+        for col in range(2):
+            for i in range(2):
+                for j in range(2):
+                    want = A.a[i, j] - (E.a[col] if i == j else 0)
+                    c.prove(tag + ":system_of_column_j_is_A_minus_e_j_I", M1.a[col, i, j] == want)
+                c.prove(tag + ":right_hand_side_of_column_j_is_column_j_of_B", B1.a[col, i, 0] == B.a[i, col])
+        if fail_first:
+            M2, B2 = calls[1]
+            for col in range(2):
+                d0 = M2.a[col, 0, 0] - M1.a[col, 0, 0]
+                c.prove(tag + ":retry_keeps_the_off_diagonal_of_A_minus_e_j_I", z3.And(M2.a[col, 0, 1] == M1.a[col, 0, 1], M2.a[col, 1, 0] == M1.a[col, 1, 0]))
+                c.prove(tag + ":retry_adds_the_same_offset_to_every_diagonal_entry", M2.a[col, 1, 1] - M1.a[col, 1, 1] == d0)
+                ents = [z3.If(M1.a[col, i, j] >= 0, M1.a[col, i, j], -M1.a[col, i, j]) for i in range(2) for j in range(2)]
+                mx = ents[0]
+                for e_ in ents[1:]:
+                    mx = z3.If(e_ > mx, e_, mx)
+                # "a small value": at most 1e-8 of the largest magnitude in that system (the code uses 10 eps)
+                c.prove(tag + ":retry_offset_is_tiny_relative_to_the_system", z3.And(d0 <= z3.RealVal("1e-8") * mx, -d0 <= z3.RealVal("1e-8") * mx))
+                c.prove(tag + ":retry_keeps_the_right_hand_side", z3.And(*[B2.a[col, i, 0] == B1.a[col, i, 0] for i in range(2)]))
+        c.prove("canary", z3.BoolVal(False), kind="canary")
+    return kit.run_unit("exactsolve_retry", run)
+
+
 def units(tier):
     us = [
+        ("exactsolve_retry", unit_exactsolve_retry),
         ("cg", lambda: unit_krylov("cg")),
         ("bicgstab", lambda: unit_krylov("bicgstab")),
         ("gmres", unit_gmres),
